@@ -529,6 +529,11 @@ def rule_pivots(repo, tier):
     for n in ast.walk(f.node):
         if isinstance(n, ast.Assign) and len(n.targets) == 1 and isinstance(n.targets[0], ast.Name):
             defs.setdefault(n.targets[0].id, []).append(n.value)
+        elif isinstance(n, ast.Assign) and len(n.targets) == 1 and isinstance(n.targets[0], ast.Tuple) and isinstance(n.value, ast.Tuple) and \
+                len(n.targets[0].elts) == len(n.value.elts):
+            for t, v in zip(n.targets[0].elts, n.value.elts):
+                if isinstance(t, ast.Name):
+                    defs.setdefault(t.id, []).append(v)
 
     def pattern(e):
         """sign pattern (s0, s1, s2) of 1 +- X[...,0,0] +- X[...,1,1] +- X[...,2,2], or None"""
@@ -545,9 +550,23 @@ def rule_pivots(repo, tier):
         flat(e, 1)
         pat = {}
         one = False
+        def is_diag(x):
+            x = defs[x.id][0] if isinstance(x, ast.Name) and len(defs.get(x.id, [])) == 1 else x
+            return isinstance(x, ast.Call) and (dotted(x.func) or '').split('.')[-1] == 'diagonal'
         for sg, t in terms:
+            # a scalar local bound once to an entry (d0 = diag[..., 0]) stands for that entry
+            if isinstance(t, ast.Name) and len(defs.get(t.id, [])) == 1 and isinstance(defs[t.id][0], ast.Subscript):
+                t = defs[t.id][0]
             if isinstance(t, ast.Constant) and t.value == 1 and sg == 1:
                 one = True
+            elif isinstance(t, ast.Subscript) and is_diag(t.value):
+                k = t.slice.elts[-1] if isinstance(t.slice, ast.Tuple) else t.slice
+                if isinstance(k, ast.Constant) and k.value in (0, 1, 2):
+                    pat[k.value] = sg
+                else:
+                    return None
+            elif isinstance(t, ast.Call) and isinstance(t.func, ast.Attribute) and t.func.attr == 'sum' and is_diag(t.func.value):
+                pat.update({0: sg, 1: sg, 2: sg})                  # the trace of the block the diagonal was taken of (C11.CROP: of the cropped 3 x 3 block)
             elif isinstance(t, ast.Subscript) and isinstance(t.slice, ast.Tuple):
                 idx = [x.value for x in t.slice.elts if isinstance(x, ast.Constant) and isinstance(x.value, int)]
                 if len(idx) == 2 and idx[0] == idx[1] and idx[0] in (0, 1, 2):
@@ -585,6 +604,106 @@ def rule_pivots(repo, tier):
                         'quaternion is dominated by its %s component (%s) are extracted with a divisor that vanishes there' %
                         (comp, miss[0], miss[1], miss[2], comp, 'small rotations' if comp == 'w' else 'half turns about the %s axis' % comp),
                         construct='pivot %s' % comp))
+    return res
+
+
+@guarded
+def rule_crop(repo):
+    """mat2SO3 accepts 3x3, 3x4 and 4x4 matrices and crops them to the rotation block (`mat = mat[..., :3, :3]`).  Everything the extraction reads afterwards is
+    read from the CROPPED matrix: a value taken from the argument before the crop (its transpose, its diagonal, a row) still has the extents of the 3x4 / 4x4 input -
+    the trace over its diagonal includes the homogeneous 1, a transposed 3x4 is 4x3 - and is identical only for the 3x3 layout.  Typestate of the parameter:
+    {as given} -crop-> {rotation block}; names bound from it in the first state are dead in the second (shape / dtype / device reads excepted)."""
+    res = RuleResult('C11.CROP', 'mat2SO3 (and the converters that crop their argument to [..., :3, :3]): no value taken from the matrix before the crop is used after it; '
+                     'the extraction reads the cropped rotation block only', floor=1)
+    from ..memo import _own_nodes
+    n_crops = 0
+    for q in ('mat2SO3', 'mat2SE3', 'mat2Sim3', 'mat2RxSO3'):
+        f = repo.func(CV, q)
+        p0 = f.pos_params[0]
+        crop = None
+        for st in f.node.body:
+            if isinstance(st, ast.Assign) and len(st.targets) == 1 and isinstance(st.targets[0], ast.Name) and st.targets[0].id == p0 and \
+                    isinstance(st.value, ast.Subscript) and isinstance(st.value.value, ast.Name) and st.value.value.id == p0 and ':3' in src(st.value.slice).replace(' ', ''):
+                crop = st
+                break
+        if crop is None:
+            continue
+        n_crops += 1
+        early = {}
+        for n in _own_nodes(f.node):
+            if isinstance(n, ast.Assign) and n.lineno < crop.lineno:
+                pairs = []
+                if len(n.targets) == 1 and isinstance(n.targets[0], ast.Tuple) and isinstance(n.value, ast.Tuple) and len(n.targets[0].elts) == len(n.value.elts):
+                    pairs = list(zip(n.targets[0].elts, n.value.elts))
+                elif len(n.targets) == 1:
+                    pairs = [(n.targets[0], n.value)]
+                for t, v in pairs:
+                    if not isinstance(t, ast.Name) or t.id == p0:
+                        continue
+                    reads = [x for x in ast.walk(v) if isinstance(x, ast.Name) and x.id == p0]
+                    meta = all(any(isinstance(a, ast.Attribute) and a.value is x and a.attr in ('shape', 'dtype', 'device', 'ndim', 'requires_grad') for a in ast.walk(v)) or
+                               any(isinstance(c, ast.Call) and dotted(c.func) in ('len', 'torch.is_tensor', 'isinstance') and x in c.args for c in ast.walk(v)) for x in reads)
+                    if reads and not meta:
+                        early[t.id] = n
+        late = {}
+        rebinds = {}
+        for n in _own_nodes(f.node):
+            if isinstance(n, ast.Name) and isinstance(n.ctx, ast.Store) and n.id in early and n.lineno > crop.lineno:
+                rebinds[n.id] = min(rebinds.get(n.id, n.lineno), n.lineno)
+        for n in _own_nodes(f.node):
+            if isinstance(n, ast.Name) and isinstance(n.ctx, ast.Load) and n.id in early and n.lineno > crop.lineno and n.lineno <= rebinds.get(n.id, 1 << 30):
+                if n.lineno == rebinds.get(n.id) and not any(isinstance(a, ast.Assign) and a.lineno == n.lineno and any(x is n for x in ast.walk(a.value)) for a in _own_nodes(f.node)):
+                    continue
+                late.setdefault(n.id, n)
+        res.inst({'function': f.fq, 'crop': src(crop)[:40], 'taken before the crop': sorted(early), 'used after it': sorted(late)}, f.fq)
+        for nm, use in late.items():
+            res.add(Finding('C11.CROP', f, '`%s` is taken from the matrix as given (`%s`) before it is cropped to the rotation block and is used after the crop (line %d): for a '
+                            '3x4 / 4x4 input it still has the extents of the whole matrix (its diagonal includes the homogeneous entry)' % (nm, src(early[nm])[:60], use.lineno),
+                            node=early[nm], construct='pre-crop value|' + nm))
+    if n_crops == 0:
+        raise AnalysisError('C11.CROP: no converter crops its argument to [..., :3, :3] any more')
+    return res
+
+
+@guarded
+def rule_validated(repo):
+    """mat2Sim3 / mat2RxSO3 hand mat2SO3 the block divided by the ONE scalar scale they return (rot / s).  That is what makes check=True a test of the input: rot / s is
+    a rotation exactly when rot is a scaled rotation.  Any other normalisation of the block before the validating call (row / column normalisation, a polar
+    factor, a projection) repairs the defect the check is there to find - an anisotropically scaled block passes and the returned element is not the input."""
+    res = RuleResult('C11.VALID', 'mat2Sim3 / mat2RxSO3 validate the block divided by the scalar scale they return (`rot / s`): the matrix handed to the checking mat2SO3 '
+                     'is not normalised in any other way', floor=2)
+    for q in ('mat2Sim3', 'mat2RxSO3'):
+        f = repo.func(CV, q)
+        once = {}
+        for n in ast.walk(f.node):
+            if isinstance(n, ast.Assign) and len(n.targets) == 1 and isinstance(n.targets[0], ast.Name):
+                once.setdefault(n.targets[0].id, []).append(n.value)
+        # the scale: the name whose definition takes a root of the determinant
+        scale = {nm for nm, vs in once.items() if any(any(isinstance(c, ast.Call) and (dotted(c.func) or '').split('.')[-1] == 'det' for c in ast.walk(v)) for v in vs)}
+        grew = True
+        while grew:
+            grew = False
+            for nm, vs in once.items():
+                if nm not in scale and any(any(isinstance(x, ast.Name) and x.id in scale for x in ast.walk(v)) for v in vs) and \
+                        not any(any(isinstance(c, ast.Call) and (dotted(c.func) or '') == 'mat2SO3' for c in ast.walk(v)) for v in vs) and \
+                        all(not any(isinstance(c, ast.Call) and (dotted(c.func) or '').split('.')[-1] in ('cat', 'stack') for c in ast.walk(v)) for v in vs):
+                    scale.add(nm)
+                    grew = True
+        calls = [c for c in ast.walk(f.node) if isinstance(c, ast.Call) and (dotted(c.func) or '') == 'mat2SO3' and c.args]
+        if not calls or not scale:
+            raise AnalysisError('C11.VALID: %s no longer calls mat2SO3 on a block scaled by a root of the determinant' % q)
+        for c in calls:
+            a = c.args[0]
+            if isinstance(a, ast.Name) and len(once.get(a.id, [])) == 1:
+                a = once[a.id][0]
+            ok = isinstance(a, ast.BinOp) and isinstance(a.op, ast.Div) and any(isinstance(x, ast.Name) and x.id in scale for x in ast.walk(a.right)) and \
+                not any(isinstance(x, ast.Call) and not (isinstance(x.func, ast.Attribute) and x.func.attr in ('unsqueeze', 'view', 'reshape', 'expand', 'expand_as'))
+                        for x in ast.walk(a))
+            res.inst({'function': f.fq, 'validated matrix': src(c.args[0])[:60], 'scale': sorted(scale), 'block divided by the scale only': ok}, (f.fq, src(c.args[0])[:40]))
+            if not ok:
+                res.add(Finding('C11.VALID', f, 'the matrix handed to the validating mat2SO3 is `%s`, not the block divided by the scalar scale %s: a normalisation other than '
+                                'the division by the returned scale repairs inputs that are not scaled rotations, and check=True accepts them' % (src(c.args[0])[:60], sorted(scale)),
+                                node=c, construct='validated matrix'))
     return res
 
 
@@ -1000,6 +1119,245 @@ def rule_angle_range(repo, tier):
     return res
 
 
+# ---------------------------------------------------------------- EULERQ: the quaternion euler2SO3 builds, as polynomials in the half-angle sines / cosines
+
+from fractions import Fraction as _Fr      # noqa: E402
+
+
+def _pmul(a, b):
+    out = {}
+    for m1, c1 in a.items():
+        for m2, c2 in b.items():
+            d = dict(m1)
+            for s, e in m2:
+                d[s] = d.get(s, 0) + e
+            k = tuple(sorted(d.items()))
+            out[k] = out.get(k, 0) + c1 * c2
+    return {k: v for k, v in out.items() if v != 0}
+
+
+def _padd(a, b, sg=1):
+    out = dict(a)
+    for k, v in b.items():
+        out[k] = out.get(k, 0) + sg * v
+    return {k: v for k, v in out.items() if v != 0}
+
+
+def _pconst(c):
+    return {(): _Fr(c)} if c else {}
+
+
+def _preduce(p):
+    """modulo c_k^2 + s_k^2 = 1: every s_k^2 is replaced by 1 - c_k^2 (normal form)"""
+    changed = True
+    while changed:
+        changed = False
+        out = {}
+        for m, c in p.items():
+            d = dict(m)
+            hit = next((s for s, e in d.items() if s.startswith('s') and e >= 2), None)
+            if hit is None:
+                out[m] = out.get(m, 0) + c
+                continue
+            changed = True
+            d[hit] -= 2
+            if d[hit] == 0:
+                del d[hit]
+            k1 = tuple(sorted(d.items()))
+            out[k1] = out.get(k1, 0) + c
+            d2 = dict(d)
+            cs = 'c' + hit[1:]
+            d2[cs] = d2.get(cs, 0) + 2
+            k2 = tuple(sorted(d2.items()))
+            out[k2] = out.get(k2, 0) - c
+        p = {k: v for k, v in out.items() if v != 0}
+    return p
+
+
+def _hamilton(q1, q2):
+    x1, y1, z1, w1 = q1
+    x2, y2, z2, w2 = q2
+    M, A = _pmul, _padd
+    w = A(A(A(M(w1, w2), M(x1, x2), -1), M(y1, y2), -1), M(z1, z2), -1)
+    x = A(A(A(M(w1, x2), M(x1, w2)), M(y1, z2)), M(z1, y2), -1)
+    y = A(A(A(M(w1, y2), M(y1, w2)), M(z1, x2)), M(x1, z2), -1)
+    z = A(A(A(M(w1, z2), M(z1, w2)), M(x1, y2)), M(y1, x2), -1)
+    return [x, y, z, w]
+
+
+def _euler_quat(f):
+    """abstract evaluation of euler2SO3: angles (component, scale), trig vectors / symbols, polynomials in c0 s0 c1 s1 c2 s2 (half-angle cosine / sine of roll,
+    pitch, yaw), quaternions (x, y, z, w) of polynomials.  -> (quaternion, [notes])"""
+    env = {f.pos_params[0]: ('ang', None, _Fr(1))}
+    PASS = {'reshape', 'view', 'lview', 'contiguous', 'clone', 'to', 'float', 'double', 'flatten', 'unsqueeze', 'squeeze', 'type_as'}
+
+    def comp(idx):
+        e = idx.elts[-1] if isinstance(idx, ast.Tuple) else idx
+        if isinstance(e, ast.Constant) and isinstance(e.value, int):
+            return e.value % 3
+        if isinstance(e, ast.UnaryOp) and isinstance(e.op, ast.USub) and isinstance(e.operand, ast.Constant):
+            return (-e.operand.value) % 3
+        return None
+
+    def ev(e):
+        if isinstance(e, ast.Constant) and isinstance(e.value, (int, float)) and not isinstance(e.value, bool):
+            return _pconst(_Fr(e.value).limit_denominator(1 << 20))
+        if isinstance(e, ast.Name):
+            if e.id in env:
+                return env[e.id]
+            raise AnalysisError('C11.EULERQ: `%s` is not bound in the abstraction' % e.id)
+        if isinstance(e, ast.Attribute) and e.attr == 'shape':
+            return ('shape',)
+        if isinstance(e, ast.Subscript):
+            v = ev(e.value)
+            if isinstance(v, tuple) and v[0] in ('ang', 'trig') and v[1] is None:
+                k = comp(e.slice)
+                if k is None:
+                    raise AnalysisError('C11.EULERQ: cannot read the component selected by `%s`' % src(e)[:40])
+                if v[0] == 'ang':
+                    return ('ang', k, v[2])
+                return {((v[2] + str(k), 1),): _Fr(1)}
+            if isinstance(v, tuple) and v[0] == 'shape':
+                return v
+            if isinstance(v, dict):
+                return v                                     # a slice of a per-item scalar (zeros_like(half[:, 0])[...]) is that scalar
+            raise AnalysisError('C11.EULERQ: cannot index `%s`' % src(e)[:40])
+        if isinstance(e, ast.UnaryOp) and isinstance(e.op, ast.USub):
+            v = ev(e.operand)
+            if isinstance(v, dict):
+                return _padd({}, v, -1)
+            if isinstance(v, list):
+                return [_padd({}, c, -1) for c in v]
+            if isinstance(v, tuple) and v[0] == 'ang':
+                return ('ang', v[1], -v[2])
+        if isinstance(e, ast.BinOp):
+            l, r = ev(e.left), ev(e.right)
+            la, ra = isinstance(l, tuple) and l[0] == 'ang', isinstance(r, tuple) and r[0] == 'ang'
+            if isinstance(e.op, (ast.Mult, ast.MatMult)) and isinstance(l, list) and isinstance(r, list):
+                return _hamilton(l, r)
+            if isinstance(e.op, ast.Mult):
+                if la and isinstance(r, dict) and set(r) <= {()}:
+                    return ('ang', l[1], l[2] * r.get((), 0))
+                if ra and isinstance(l, dict) and set(l) <= {()}:
+                    return ('ang', r[1], r[2] * l.get((), 0))
+                if isinstance(l, dict) and isinstance(r, dict):
+                    return _pmul(l, r)
+            if isinstance(e.op, ast.Div):
+                if isinstance(r, dict) and set(r) == {()}:
+                    if la:
+                        return ('ang', l[1], l[2] / r[()])
+                    if isinstance(l, dict):
+                        return {k: v / r[()] for k, v in l.items()}
+            if isinstance(e.op, (ast.Add, ast.Sub)) and isinstance(l, dict) and isinstance(r, dict):
+                return _padd(l, r, 1 if isinstance(e.op, ast.Add) else -1)
+            raise AnalysisError('C11.EULERQ: cannot evaluate `%s`' % src(e)[:60])
+        if isinstance(e, ast.Call):
+            fn = dotted(e.func) or ''
+            if isinstance(e.func, ast.Attribute) and not fn.startswith('torch.'):
+                m = e.func.attr
+                if m in PASS:
+                    return ev(e.func.value)
+                if m in ('cos', 'sin'):
+                    return trig(m[0], ev(e.func.value), e)
+            if fn in ('torch.cos', 'torch.sin') and len(e.args) == 1:
+                return trig(fn[6], ev(e.args[0]), e)
+            if fn in ('torch.zeros_like', 'torch.ones_like'):
+                return _pconst(0 if 'zeros' in fn else 1)
+            if fn in ('torch.stack', 'torch.cat') and e.args and isinstance(e.args[0], (ast.List, ast.Tuple)) and len(e.args[0].elts) == 4:
+                vs = [ev(x) for x in e.args[0].elts]
+                if all(isinstance(v, dict) for v in vs):
+                    return vs
+            if fn.split('.')[-1] in ('SO3', 'LieTensor') and e.args:
+                v = ev(e.args[0])
+                if isinstance(v, list):
+                    return v
+            if fn in ('torch.tensor', 'torch.as_tensor', 'torch.atleast_1d', 'torch.atleast_2d') and e.args:
+                return ev(e.args[0])
+            raise AnalysisError('C11.EULERQ: cannot evaluate the call `%s`' % src(e)[:60])
+        raise AnalysisError('C11.EULERQ: cannot evaluate `%s`' % src(e)[:60])
+
+    notes = []
+
+    def trig(kind, a, node):
+        if not (isinstance(a, tuple) and a[0] == 'ang'):
+            raise AnalysisError('C11.EULERQ: %s of something that is not an angle (`%s`)' % (kind, src(node)[:40]))
+        if abs(a[2]) != _Fr(1, 2):
+            notes.append((node, 'the %s is taken of %s times the angle, the quaternion needs the half angle' % ('cosine' if kind == 'c' else 'sine', a[2])))
+        sg = -1 if (a[2] < 0 and kind == 's') else 1
+        if a[1] is None:
+            if sg < 0:
+                raise AnalysisError('C11.EULERQ: sine of the negated angle vector')
+            return ('trig', None, kind)
+        return {((kind + str(a[1]), 1),): _Fr(sg)}
+
+    def bind(t, v):
+        if isinstance(t, ast.Name):
+            env[t.id] = v
+        elif isinstance(t, (ast.Tuple, ast.List)) and isinstance(v, _Seq) and len(t.elts) == len(v.items):
+            for tt, vv in zip(t.elts, v.items):
+                bind(tt, vv)
+        else:
+            raise AnalysisError('C11.EULERQ: cannot bind `%s`' % src(t)[:40])
+
+    class _Seq:
+        def __init__(self, items): self.items = items
+    for st in f.node.body:
+        if isinstance(st, ast.Expr) and isinstance(st.value, ast.Constant) or isinstance(st, ast.Assert):
+            continue
+        if isinstance(st, ast.If) and any(isinstance(c, ast.Call) and dotted(c.func) in ('torch.is_tensor', 'isinstance') for c in ast.walk(st.test)):
+            continue                                               # the conversion of a list argument to a tensor
+        if isinstance(st, ast.Return):
+            v = ev(st.value)
+            if not isinstance(v, list):
+                raise AnalysisError('C11.EULERQ: euler2SO3 does not return a quaternion in the abstraction')
+            return v, notes
+        if isinstance(st, ast.Assign) and len(st.targets) == 1:
+            t, v = st.targets[0], st.value
+            if isinstance(t, (ast.Tuple, ast.List)) and isinstance(v, (ast.Tuple, ast.List)):
+                bind(t, _Seq([ev(x) for x in v.elts]))
+            else:
+                bind(t, ev(v))
+            continue
+        raise AnalysisError('C11.EULERQ: statement `%s` of euler2SO3 is outside the straight-line form the evaluator reads' % src(st)[:50])
+    raise AnalysisError('C11.EULERQ: euler2SO3 has no return')
+
+
+@guarded
+def rule_eulerq(repo):
+    """euler2SO3(roll, pitch, yaw) is the quaternion of Rz(yaw) Ry(pitch) Rx(roll) - the convention LieTensor.euler() extracts and the formula of the docstring:
+        x = sr cp cy - cr sp sy,  y = cr sp cy + sr cp sy,  z = cr cp sy - sr sp cy,  w = cr cp cy + sr sp sy      (c., s. of the HALF angles)
+    The body is evaluated over polynomials in the six half-angle sines / cosines (quaternion products are expanded by the Hamilton product in the library's
+    (x, y, z, w) order) and compared with these four polynomials modulo c^2 + s^2 = 1, up to the common sign of a quaternion.  A product of elementary rotations in
+    another order (Rx Ry Rz) differs in the sign of the second term of every component."""
+    res = RuleResult('C11.EULERQ', 'euler2SO3 builds the quaternion of Rz(yaw) Ry(pitch) Rx(roll): its four components, as polynomials in the half-angle sines and cosines, '
+                     'equal sr cp cy - cr sp sy, cr sp cy + sr cp sy, cr cp sy - sr sp cy, cr cp cy + sr sp sy (modulo c^2 + s^2 = 1 and a common sign)', floor=4)
+    f = repo.func(CV, 'euler2SO3')
+    q, notes = _euler_quat(f)
+
+    def mono(*syms):
+        return tuple(sorted((s, 1) for s in syms))
+    want = [{mono('s0', 'c1', 'c2'): _Fr(1), mono('c0', 's1', 's2'): _Fr(-1)}, {mono('c0', 's1', 'c2'): _Fr(1), mono('s0', 'c1', 's2'): _Fr(1)},
+            {mono('c0', 'c1', 's2'): _Fr(1), mono('s0', 's1', 'c2'): _Fr(-1)}, {mono('c0', 'c1', 'c2'): _Fr(1), mono('s0', 's1', 's2'): _Fr(1)}]
+    got = [_preduce(p) for p in q]
+    wantr = [_preduce(p) for p in want]
+    same = all(g == w for g, w in zip(got, wantr))
+    neg = all(g == _padd({}, w, -1) for g, w in zip(got, wantr))
+
+    def show(p):
+        return ' '.join('%+g %s' % (float(c), '*'.join(s if e == 1 else '%s^%d' % (s, e) for s, e in m) or '1') for m, c in sorted(p.items())) or '0'
+    for i, nm in enumerate('xyzw'):
+        ok = got[i] == wantr[i] or (neg and not same)
+        res.inst({'component': nm, 'polynomial (0 roll, 1 pitch, 2 yaw)': show(got[i]), 'documented': show(wantr[i]), 'equal': ok}, nm)
+    for node, msg in notes:
+        res.add(Finding('C11.EULERQ', f, msg, node=node, construct='half angle'))
+    if not (same or neg):
+        bad = [nm for i, nm in enumerate('xyzw') if got[i] != wantr[i]]
+        res.add(Finding('C11.EULERQ', f, 'euler2SO3 does not build the quaternion of Rz(yaw) Ry(pitch) Rx(roll): component(s) %s differ, e.g. %s = %s where the convention '
+                        '(and LieTensor.euler, its inverse) has %s' % (bad, bad[0], show(got['xyzw'.index(bad[0])]), show(wantr['xyzw'.index(bad[0])])),
+                        construct='euler quaternion|' + ','.join(bad)))
+    return res
+
+
 def _rules_core(repo, tier):
     from ..effects import rule_pure
     t = [(CV, q) for q in ('mat2SO3', 'mat2SE3', 'mat2Sim3', 'mat2RxSO3', 'from_matrix', 'euler2SO3', 'quat2unit')]
@@ -1049,7 +1407,7 @@ def rules(repo, tier):
     from ..callsig import rule_callsig
     from ..docsig import rule_docsig
     from ..axisdefault import rule_axisdefault
-    return list(_rules_core(repo, tier)) + [rule_shape(repo), rule_eulerarg(repo), __import__('sa.mode', fromlist=['x']).rule_guardset(repo, 'C11.GUARDSL', ['pypose.lietensor.lietensor']), rule_memo(repo, 'C11.MEMO', 'history independence: nothing computed from the contents of a tensor argument is kept '
+    return list(_rules_core(repo, tier)) + [rule_shape(repo), rule_eulerarg(repo), rule_eulerq(repo), rule_crop(repo), rule_validated(repo), __import__('sa.mode', fromlist=['x']).rule_guardset(repo, 'C11.GUARDSL', ['pypose.lietensor.lietensor']), rule_memo(repo, 'C11.MEMO', 'history independence: nothing computed from the contents of a tensor argument is kept '
                                                       'under the identity, address or version of that tensor, in module-level storage, or published from a generator '
                                                       'before it is complete - a later call with the same object and other contents must not be answered from it',
                                                       ['pypose.lietensor.convert'], floor=3),
